@@ -88,4 +88,4 @@ package stat
 //@   modifies mapof(resNodeMap)
 
 // ---- C15: the resource-node registry is only touched under its lock
-//@ guarded resNodeMap by rnsMux {C15}
+//@ guarded resNodeMap by rnsMux insert-once {C15}
